@@ -19,7 +19,8 @@ RULE = ("cases = (suite, secret key, message) triples driven through SkToPk -> S
         "KeyGen results must lie in [1, r-1], equal the model's and survive sign -> verify; W5 fault injection forces the first j candidate keys "
         "of KeyGen to 0 to drive its retry loop. Keys: boundaries, one per bit length 1..255, random, low/high weight; messages: empty, single "
         "bytes, SHA-256 block/padding boundaries (also after the 48-byte AUG prefix), binary, KiB-sized, the public key itself. "
-        "distinct = distinct (suite, key, message); non-trivial = key >= 2^80 or boundary/rejected key, or message not short printable ASCII")
+        "distinct = distinct (suite, key, message); non-trivial = key >= 2^80 or boundary/rejected key, or message not short printable ASCII"
+        " A concurrent phase repeats Sign/Verify/PopProve/PopVerify/SkToPk of all suites in 3-4 threads at once and requires the single-threaded values (monitor B-driver.threads).")
 ASSUMPTIONS = ["'non-integer type' = anything for which isinstance(x, int) is false; bool is not generated"]
 R = params.BLS_R
 BAD_KEYS = [0, R, R + 1, 2 * R, -1, -R, 1 << 255, 1 << 256, 10 ** 100, "1", b"\x01", 1.0, None, [1], Fraction(1), (1,), 2.5, float("inf")]
